@@ -102,7 +102,8 @@ Inductive fclass :=
 | FCounterRate     (* no configured rate of that counter is >= X *)
 | FStackName       (* uploaded stack whose title is not a configured stack of the program *)
 | FStackRate
-| FRateShared      (* rate failure where the name is configured both as counter and as stack (finding 13) *)
+| FRateShared      (* rate failure where the name is configured both as counter and as stack AND the decision is the
+                      one the single shared rate table (last configured rate of the name) gives: finding 13 *)
 | FValueSum        (* uploaded value is not the (wrapped) sum over the build's files *)
 | FValueWrap       (* uploaded value is the wrapped sum, and the true sum is >= 2^63 (finding 14) *)
 | FIncomplete.     (* an approved counter with rate >= X present locally is missing *)
@@ -117,13 +118,18 @@ Definition check_value (files : list cfile) (i : ident) (k : bytes) (v : Z) : li
           else [(FValueSum, k)]
   end.
 
+(* Classification of a rate failure.  The known class FRateShared is tied to ITS shape: the name is configured
+   both as a counter and as a stack of the program AND the decision taken is the one a single rate table holding
+   the LAST configured rate of (program, name) gives (Model/Config.rate).  Any other wrong decision on such a
+   name is an ordinary FCounterRate / FStackRate / FIncomplete. *)
 Definition check_counter (u : upload_cfg) (files : list cfile) (x : N) (i : ident) (kv : bytes * Z)
   : list failure :=
   let k := fst kv in
   let prog := id_program i in
   (if is_stack k || negb (approved_counterb u prog k) then [(FCounterName, k)]
    else if existsb (N.leb x) (counter_rates u prog k) then []
-   else if nonempty (stack_rates u prog k) then [(FRateShared, k)] else [(FCounterRate, k)])
+   else if nonempty (stack_rates u prog k) && (x <=? rate (new_config u) prog k)%N
+        then [(FRateShared, k)] else [(FCounterRate, k)])
   ++ check_value files i k (snd kv).
 
 Definition check_stack (u : upload_cfg) (files : list cfile) (x : N) (i : ident) (kv : bytes * Z)
@@ -132,7 +138,8 @@ Definition check_stack (u : upload_cfg) (files : list cfile) (x : N) (i : ident)
   let prog := id_program i in
   (if negb (is_stack k) || negb (approved_stackb u prog k) then [(FStackName, k)]
    else if existsb (N.leb x) (stack_rates u prog (stack_title k)) then []
-   else if nonempty (counter_rates u prog (stack_title k)) then [(FRateShared, k)] else [(FStackRate, k)])
+   else if nonempty (counter_rates u prog (stack_title k)) && (x <=? rate (new_config u) prog (stack_title k))%N
+        then [(FRateShared, k)] else [(FStackRate, k)])
   ++ check_value files i k (snd kv).
 
 Definition check_prog (u : upload_cfg) (files : list cfile) (x : N) (p : ident * body) : list failure :=
@@ -167,7 +174,8 @@ Definition check_present (u : upload_cfg) (x : N) (up : progs) (f : cfile) : lis
             if must_stack u x prog k then
               match aget beq k (snd b) with
               | Some _ => []
-              | None => if nonempty (counter_rates u prog (stack_title k))
+              | None => if nonempty (counter_rates u prog (stack_title k)) &&
+                           negb (x <=? rate (new_config u) prog (stack_title k))%N
                         then [(FRateShared, k)] else [(FIncomplete, k)]
               end
             else []
@@ -175,7 +183,7 @@ Definition check_present (u : upload_cfg) (x : N) (up : progs) (f : cfile) : lis
             if must_counter u x prog k then
               match aget beq k (fst b) with
               | Some _ => []
-              | None => if nonempty (stack_rates u prog k)
+              | None => if nonempty (stack_rates u prog k) && negb (x <=? rate (new_config u) prog k)%N
                         then [(FRateShared, k)] else [(FIncomplete, k)]
               end
             else []) (f_counts f)
